@@ -80,8 +80,8 @@ def run_scratch(sid, props=None):
         rc, out = sh(['git', '-C', wt, 'apply', os.path.join(d, 'patch.diff')]); assert rc == 0, out
         for p in (props or [sid.split('-')[0]]):
             t = time.time()
-            rc, out = sh('VERIF_REPO_ROOT=%s VERIF_EVIDENCE_DIR=%s/out/evidence_seeded/%s %s/check %s'
-                         % (wt, V, sid, V, p), cwd=V, timeout=1800)
+            rc, out = sh('VERIF_REPO_ROOT=%s VERIF_OUT=out/seeded/%s VERIF_EVIDENCE_DIR=%s/out/evidence_seeded/%s %s/check %s'
+                         % (wt, sid, V, sid, V, p), cwd=V, timeout=1800)
             lines = [l for l in out.splitlines() if l.startswith(('VIOLATION', 'UNDECIDED', 'CHECKER-LIMIT', 'PROOF'))]
             res[(sid, p)] = (rc, lines)
             print(sid, p, 'exit', rc, '%.0fs' % (time.time() - t), flush=True)
